@@ -334,6 +334,19 @@ func (m *Machine) rtIntrinsic(name string, fn *ssa.Function, args []Value, k fun
 		id := m.constInt(args[2], "assert id")
 		m.assertSameLogs(a, b, id)
 		k(nil)
+	case "AssertDisjointFootprints":
+		id := m.constInt(args[0], "assert id")
+		if bad := m.footprintConflicts(); len(bad) > 0 {
+			r, model := m.model(m.pathVars)
+			if r == Sat {
+				m.recordFailure(id, "footprint", "heap cells written by one actor and touched by another: "+strings.Join(bad, "; "), model)
+			} else {
+				m.inconclusive = append(m.inconclusive, "footprint conflict but no model")
+			}
+		} else {
+			m.assertsProved++
+		}
+		k(nil)
 	case "Depth":
 		k(tt.BV(64, uint64(m.depth())))
 	case "Actor":
